@@ -16,10 +16,12 @@ package main
 // with their labels), plus the list of spans the SDK exported.
 
 import (
+	"bytes"
 	"context"
 	"errors"
 	"fmt"
 	"math/rand"
+	"net/http"
 	"sort"
 	"strings"
 	"sync"
@@ -57,6 +59,7 @@ type c43Call struct {
 	TPMeta    string   `json:"tp_meta,omitempty"` // traceparent in the request's IPC custom metadata
 	TPHdr     string   `json:"tp_hdr,omitempty"`  // Traceparent HTTP header (HTTP only)
 	TState    string   `json:"tstate,omitempty"`  // tracestate, same carrier(s) as the traceparent
+	Amb       string   `json:"amb,omitempty"`     // span context already current in the dispatch ctx: "" (bare) | recording | remote | remote_unsampled | remote_ts | local_unsampled | invalid
 	BadParams bool     `json:"bad_params,omitempty"`
 	Init      string   `json:"init"`             // ok | err_rpc | err_plain | panic | nil (nil: streams only)
 	Turns     []string `json:"turns,omitempty"`  // emit | finish | err | panic | noemit
@@ -84,6 +87,8 @@ type c43Ev struct {
 	PTrace  string `json:"ptrace,omitempty"`
 	PSpan   string `json:"pspan,omitempty"`
 	SameTr  bool   `json:"same_trace,omitempty"`
+	Remote  bool   `json:"parent_remote,omitempty"`
+	PTState string `json:"parent_tracestate,omitempty"`
 	Server  bool   `json:"server_kind,omitempty"`
 	Status  string `json:"status,omitempty"` // unset | error | ok
 	Exc     bool   `json:"exc,omitempty"`
@@ -138,6 +143,7 @@ func (t *c43Tracer) Start(ctx context.Context, name string, opts ...trace.SpanSt
 	if parent.IsValid() {
 		ev.PTrace, ev.PSpan = parent.TraceID().String(), parent.SpanID().String()
 		ev.SameTr = sp.SpanContext().TraceID() == parent.TraceID()
+		ev.Remote, ev.PTState = parent.IsRemote(), parent.TraceState().String()
 	}
 	if sp.IsRecording() {
 		t.b.sids[sp.SpanContext().SpanID()] = sid
@@ -174,7 +180,8 @@ func (s *c43Span) End(opts ...trace.SpanEndOption) {
 		ev.Stats = nstats == 6
 		if p := ro.Parent(); p.IsValid() {
 			ev.PTrace, ev.PSpan = p.TraceID().String(), p.SpanID().String()
-			ev.SameTr = ro.SpanContext().TraceID() == p.TraceID() && p.IsRemote()
+			ev.SameTr = ro.SpanContext().TraceID() == p.TraceID()
+			ev.Remote, ev.PTState = p.IsRemote(), p.TraceState().String()
 		}
 	}
 	s.b.mu.Lock()
@@ -263,6 +270,70 @@ func (b *c43Backend) drain() []c43Ev {
 		return ms[i].Method+ms[i].MType+ms[i].Label < ms[j].Method+ms[j].MType+ms[j].Label
 	})
 	return append(out, ms...)
+}
+
+// ------------------------------------------------------------------ ambient dispatch contexts
+
+// c43FixedIDs makes the ambient recording span's ids deterministic.
+type c43FixedIDs struct{}
+
+var (
+	c43AmbTrace, _ = trace.TraceIDFromHex("a1a1a1a1a1a1a1a1a1a1a1a1a1a1a1a1")
+	c43AmbSpan, _  = trace.SpanIDFromHex("a2a2a2a2a2a2a2a2")
+	c43RemTrace, _ = trace.TraceIDFromHex("b1b1b1b1b1b1b1b1b1b1b1b1b1b1b1b1")
+	c43RemSpan, _  = trace.SpanIDFromHex("b2b2b2b2b2b2b2b2")
+)
+
+func (c43FixedIDs) NewIDs(context.Context) (trace.TraceID, trace.SpanID) { return c43AmbTrace, c43AmbSpan }
+func (c43FixedIDs) NewSpanID(context.Context, trace.TraceID) trace.SpanID  { return c43AmbSpan }
+
+// the server's own tracer (session / middleware spans): NOT the backend under observation
+var c43AmbTP = sdktrace.NewTracerProvider(sdktrace.WithSampler(sdktrace.AlwaysSample()), sdktrace.WithIDGenerator(c43FixedIDs{}))
+
+// c43AmbCtx builds the context the server is served with; done ends the ambient span.
+func c43AmbCtx(kind string) (ctx context.Context, done func()) {
+	ctx, done = context.Background(), func() {}
+	remote := func(flags trace.TraceFlags, ts string) context.Context {
+		st, _ := trace.ParseTraceState(ts)
+		return trace.ContextWithRemoteSpanContext(ctx, trace.NewSpanContext(trace.SpanContextConfig{
+			TraceID: c43RemTrace, SpanID: c43RemSpan, TraceFlags: flags, TraceState: st, Remote: true}))
+	}
+	switch kind {
+	case "recording": // inside a recording span of the server (session span / otelhttp-like middleware)
+		c, sp := c43AmbTP.Tracer("ambient").Start(ctx, "session")
+		return c, func() { sp.End() }
+	case "remote":
+		return remote(trace.FlagsSampled, ""), done
+	case "remote_unsampled":
+		return remote(0, ""), done
+	case "remote_ts":
+		return remote(trace.FlagsSampled, "amb=1"), done
+	case "local_unsampled": // a non-recording local span context
+		return trace.ContextWithSpanContext(ctx, trace.NewSpanContext(trace.SpanContextConfig{TraceID: c43RemTrace, SpanID: c43RemSpan})), done
+	case "invalid": // a span context that is not valid (zero ids)
+		return trace.ContextWithSpanContext(ctx, trace.NewSpanContext(trace.SpanContextConfig{TraceFlags: trace.FlagsSampled})), done
+	}
+	return ctx, done
+}
+
+// c43CoqAmb renders the ambient span context as the SDK reports it (None when not valid).
+func c43CoqAmb(kind string) string {
+	ctx, done := c43AmbCtx(kind)
+	defer done()
+	sc := trace.SpanContextFromContext(ctx)
+	if !sc.IsValid() {
+		return "None"
+	}
+	return App("Some", App("C43.Build_sctx", B(sc.TraceID().String()), B(sc.SpanID().String()), Bool(sc.IsSampled()), Bool(sc.IsRemote()), B(sc.TraceState().String())))
+}
+
+// c43NormTS is the tracestate as trace.ParseTraceState normalises it ("" when invalid): SDK oracle.
+func c43NormTS(ts string) string {
+	st, err := trace.ParseTraceState(ts)
+	if err != nil {
+		return ""
+	}
+	return st.String()
 }
 
 // ------------------------------------------------------------------ scripted surface with gates
@@ -414,6 +485,8 @@ func (r *c43Hist) runCall(k int, pipeSrv *vgirpc.Server, httpSrv *vgirpc.HttpSer
 	pb := c43ParamBatch(k, c.BadParams)
 	req := ReqBytes(pb, meta)
 	pb.Release()
+	ambCtx, ambDone := c43AmbCtx(c.Amb)
+	defer ambDone()
 	if !c.HTTP {
 		in := req
 		if c.Kind == "prod" || c.Kind == "exch" {
@@ -427,10 +500,22 @@ func (r *c43Hist) runCall(k int, pipeSrv *vgirpc.Server, httpSrv *vgirpc.HttpSer
 			}
 			in = append(in, InputBytes(schema, items)...)
 		}
-		RunPipe(pipeSrv, in)
+		// the pipe session is served with the ambient context (a long-lived session span)
+		func() {
+			defer func() { _ = recover() }()
+			var buf bytes.Buffer
+			pipeSrv.ServeWithContext(ambCtx, bytes.NewReader(in), &buf)
+		}()
 		afterInit()
 		return
 	}
+	// a middleware in front of the handler that makes the ambient span current in r.Context()
+	var httpH http.Handler = http.HandlerFunc(func(w http.ResponseWriter, rq *http.Request) {
+		if c.Amb != "" {
+			rq = rq.WithContext(trace.ContextWithSpan(rq.Context(), trace.SpanFromContext(ambCtx)))
+		}
+		httpSrv.ServeHTTP(w, rq)
+	})
 	hdr := map[string]string{}
 	if c.TPHdr != "" {
 		hdr["Traceparent"] = c.TPHdr
@@ -442,7 +527,7 @@ func (r *c43Hist) runCall(k int, pipeSrv *vgirpc.Server, httpSrv *vgirpc.HttpSer
 	if c.Kind == "prod" || c.Kind == "exch" {
 		path += "/init"
 	}
-	resp := DoHTTP(httpSrv, "POST", path, req, hdr)
+	resp := DoHTTP(httpH, "POST", path, req, hdr)
 	afterInit()
 	if c.Kind != "exch" {
 		return
@@ -480,7 +565,7 @@ func (r *c43Hist) runCall(k int, pipeSrv *vgirpc.Server, httpSrv *vgirpc.HttpSer
 		xb := int64Batch(inSchemaX, []int64{1})
 		body = ReqBytes(xb, m)
 		xb.Release()
-		resp = DoHTTP(httpSrv, "POST", "/exch/exchange", body, hdr)
+		resp = DoHTTP(httpH, "POST", "/exch/exchange", body, hdr)
 		sub()
 		if it == "cancel" || !find(resp.Body) {
 			return
@@ -651,6 +736,12 @@ func c43Run(in c43In) CaseOut {
 			t = "http-"
 		}
 		tags[t+c.Kind] = true
+		if c.Amb != "" {
+			tags["amb-"+c.Amb] = true
+			if c.TPMeta != "" || (c.HTTP && c.TPHdr != "") {
+				tags["amb+traceparent"] = true
+			}
+		}
 	}
 	tags["sampler-"+in.Cfg.Sampler] = true
 	if !in.Cfg.Tracing {
@@ -668,7 +759,7 @@ func c43Run(in c43In) CaseOut {
 	coqEv := func(e c43Ev) string {
 		par := "None"
 		if e.PSpan != "" {
-			par = App("Some", App("C43.Build_opar", B(e.PTrace), B(e.PSpan), Bool(e.SameTr)))
+			par = App("Some", App("C43.Build_opar", B(e.PTrace), B(e.PSpan), Bool(e.SameTr), Bool(e.Remote), B(e.PTState)))
 		}
 		switch e.Kind {
 		case "start":
@@ -688,7 +779,7 @@ func c43Run(in c43In) CaseOut {
 		ini := map[string]string{"ok": "C43.OOk", "err_rpc": "C43.OErrRpc", "err_plain": "C43.OErrPlain", "panic": "C43.OPanic", "nil": "C43.ONil"}[c.Init]
 		turn := map[string]string{"emit": "C43.TEmit", "finish": "C43.TFinish", "err": "C43.TErr", "panic": "C43.TPanic", "noemit": "C43.TNoEmit"}
 		item := map[string]string{"tick": "C43.ITick", "cancel": "C43.ICancel"}
-		return App("C43.Build_call", Bool(c.HTTP), kind, B(c.TPMeta), B(c.TPHdr), Bool(c.BadParams), ini,
+		return App("C43.Build_call", Bool(c.HTTP), kind, B(c.TPMeta), B(c.TPHdr), B(c43NormTS(c.TState)), c43CoqAmb(c.Amb), Bool(c.BadParams), ini,
 			ListOf(c.Turns, func(s string) string { return turn[s] }), ListOf(c.Inputs, func(s string) string { return item[s] }))
 	}
 	smp := map[string]string{"always": "C43.SAlways", "never": "C43.SNever", "parent_always": "C43.SParentAlways", "parent_never": "C43.SParentNever"}[in.Cfg.Sampler]
@@ -779,6 +870,8 @@ func c43SeqSched(n int) []c43Op {
 	return s
 }
 
+var c43Ambs = []string{"", "recording", "remote", "remote_unsampled", "remote_ts", "local_unsampled", "invalid"}
+
 func c43GenCall(r *rand.Rand) c43Call {
 	c := c43Call{HTTP: r.Intn(2) == 0, Kind: []string{"unary", "unary", "prod", "exch", "prod", "exch", "unknown"}[r.Intn(7)], Init: "ok"}
 	if r.Intn(3) != 0 {
@@ -789,6 +882,9 @@ func c43GenCall(r *rand.Rand) c43Call {
 	}
 	if r.Intn(3) == 0 {
 		c.TState = []string{"vendor=1", "a=b,c=d", "bad tracestate=="}[r.Intn(3)]
+	}
+	if r.Intn(9) < 4 {
+		c.Amb = c43Ambs[1+r.Intn(len(c43Ambs)-1)]
 	}
 	c.BadParams = r.Intn(10) == 0
 	inits := []string{"err_rpc", "err_plain", "panic"}
@@ -839,6 +935,35 @@ func c43Gen(r *rand.Rand, n int, tier string) []c43In {
 	full := c43Cfg{Tracing: true, Metrics: true, RecExc: true, Propagate: true, Sampler: "always"}
 	tp := "00-0af7651916cd43dd8448eb211c80319c-b7ad6b7169203331-01"
 	tp0 := "00-0af7651916cd43dd8448eb211c80319c-00f067aa0ba902b7-00"
+	// boundary: every ambient dispatch context x {valid sampled / valid unsampled / absent / malformed
+	// traceparent} x {tracestate present / absent}, both transports, under a parent-sensitive and an
+	// always-on sampler; plus an HTTP exchange whose continuations run under the same ambient context
+	for _, smp := range []string{"parent_always", "always"} {
+		for _, amb := range c43Ambs {
+			for _, http := range []bool{false, true} {
+				var calls []c43Call
+				for _, t := range []string{tp, tp0, "", "00-" + strings.Repeat("0", 32) + "-b7ad6b7169203331-01"} {
+					for _, ts := range []string{"vendor=1,x=y", ""} {
+						c := c43Call{HTTP: http, Kind: "unary", Init: "ok", Amb: amb, TState: ts}
+						if http && len(calls)%4 < 2 {
+							c.TPHdr = t
+						} else {
+							c.TPMeta = t
+						}
+						calls = append(calls, c)
+					}
+				}
+				if http {
+					calls = append(calls, c43Call{HTTP: true, Kind: "exch", Init: "ok", Amb: amb, TPHdr: tp, TState: "k=v", Turns: []string{"emit", "err"}, Inputs: []string{"tick", "tick"}})
+				} else {
+					calls = append(calls, c43Call{Kind: "prod", Init: "ok", Amb: amb, TPMeta: tp0, Turns: []string{"emit", "panic"}, Inputs: []string{"tick", "tick"}})
+				}
+				cfg := full
+				cfg.Sampler = smp
+				out = append(out, c43In{Cfg: cfg, Calls: calls, Sched: c43SeqSched(len(calls))})
+			}
+		}
+	}
 	// boundary: every call kind x transport x outcome once, sequential, with a valid traceparent
 	for _, http := range []bool{false, true} {
 		for _, kind := range []string{"unary", "prod", "exch", "unknown"} {
@@ -915,6 +1040,6 @@ func c43Gen(r *rand.Rand, n int, tier string) []c43In {
 }
 
 func init() {
-	Register("C43", "boundary histories first (every call kind x transport x init outcome; every turn action at first/later turn; every tracing/metrics/record-exceptions/propagator toggle x 4 samplers under an interleaved schedule; a 72-entry traceparent pool of valid, future-version and 17 malformed shapes in IPC metadata and in the HTTP header), then random histories of 1-5 calls (unary / producer / exchange / unknown method, pipe / HTTP, ok / RpcError / plain error / panic / nil result / bad parameters, 0-4 scripted turns, 0-4 client inputs incl. cancel, traceparent in metadata and/or header, tracestate) under random interleaved Begin/Finish schedules forced with handler gates; one in five schedules carries ill-formed ops; non-trivial = at least one span ended or one request counted; distinct = distinct input JSON",
+	Register("C43", "boundary histories first (7 ambient dispatch contexts [bare, inside a recording span, remote sampled / unsampled / with tracestate, local non-recording, invalid] x {valid sampled, valid unsampled, absent, zero-id traceparent} x {tracestate, none} x pipe (ServeWithContext) / HTTP (middleware putting the span in r.Context()) x 2 samplers; every call kind x transport x init outcome; every turn action at first/later turn; every tracing/metrics/record-exceptions/propagator toggle x 4 samplers under an interleaved schedule; a 72-entry traceparent pool of valid, future-version and 17 malformed shapes in IPC metadata and in the HTTP header), then random histories of 1-5 calls (unary / producer / exchange / unknown method, pipe / HTTP, ok / RpcError / plain error / panic / nil result / bad parameters, 0-4 scripted turns, 0-4 client inputs incl. cancel, traceparent in metadata and/or header, tracestate, 4 in 9 calls under a non-bare ambient context) under random interleaved Begin/Finish schedules forced with handler gates; one in five schedules carries ill-formed ops; non-trivial = at least one span ended or one request counted; distinct = distinct input JSON",
 		c43Gen, c43Run)
 }
